@@ -323,7 +323,10 @@ void profile_solve(Gen &g) {
 void profile_partial(Gen &g) {
 	Plan &p = g.p; Rng &r = g.r;
 	bool wide = r.chance(2, 3);
-	p.lps.push_back(wide ? g.gen_lp(0, 130, 6, 56, 2) : g.gen_lp(0, 6, 120, 2, 56));
+	// enough rows (columns) besides the many columns (rows) for the simplex to make tens of pivots: what partial pricing skips only shows
+	// when a column (row) that was unattractive at the start of a phase has to enter (leave) later
+	bool deep = r.chance(2, 3);
+	p.lps.push_back(wide ? g.gen_lp(0, deep ? 110 : 130, deep ? 24 : 6, 56, deep ? 8 : 2) : g.gen_lp(0, deep ? 24 : 6, deep ? 110 : 120, deep ? 8 : 2, 56));
 	int nc = r.range(3, 5); std::vector<std::vector<Op>> per(nc);
 	for (int c = 0; c < nc; c++) {
 		Op cr = g.mk(c, "create"); g.seti(cr, "lp", 0); static const char *h[] = {"build", "build1", "colwise", "load"}; g.set(cr, "how", h[r.below(4)]); per[c].push_back(cr);
@@ -399,6 +402,16 @@ void profile_io(Gen &g, bool damage_heavy) {
 				Op w2 = g.mk(0, "write"); g.seti(w2, "o", -1); g.set(w2, "fmt", w.s("fmt") == "LP" ? "MPS" : "LP"); g.set(w2, "via", "path"); g.set(w2, "path", strf("f%d", nfile++)); g.seti(w2, "comp", r.below(3)); p.ops.push_back(w2);
 				Op r2 = g.mk(0, "read"); g.seti(r2, "pick", -1); g.set(r2, "via", "path"); p.ops.push_back(r2);
 			}
+		} else if (d < 8 && !damage_heavy && r.chance(1, 3)) {
+			// basis-file warm start: solve, save the basis, solve a tilted problem (the object now holds another factorized basis), put the
+			// objective back, read-and-load the file - the saved basis is optimal again and the next solve has to start from it (C14)
+			long oi = r.below(4); std::string how = r.chance(1, 2) ? "primal" : "dual"; std::string path = strf("b%d", nfile++);
+			{ Op s1 = g.gen_solve(0, how); g.seti(s1, "o", oi); s1.a.erase("warm"); p.ops.push_back(s1); }
+			{ Op b = g.mk(0, "wbasis"); g.seti(b, "o", oi); g.set(b, "path", path); g.seti(b, "comp", 0); g.set(b, "src", "own"); p.ops.push_back(b); }
+			long j = r.below(30); { Op e = g.mk(0, "edit"); g.seti(e, "o", oi); g.set(e, "what", "chgobj"); g.seti(e, "j", j); g.set(e, "v", g.num()); g.seti(e, "save", 1); p.ops.push_back(e); }
+			{ Op s2 = g.gen_solve(0, r.chance(1, 2) ? "primal" : "dual"); g.seti(s2, "o", oi); s2.a.erase("warm"); p.ops.push_back(s2); }
+			{ Op e = g.mk(0, "edit"); g.seti(e, "o", oi); g.set(e, "what", "chgobj"); g.seti(e, "j", j); g.set(e, "v", "@"); p.ops.push_back(e); }
+			{ Op rb = g.mk(0, "rbasis"); g.seti(rb, "o", oi); g.set(rb, "path", path); g.seti(rb, "comp", 0); g.set(rb, "how", "load"); p.ops.push_back(rb); }
 		} else if (d < 8) {
 			bool foreign = g.ok("fbasis") && (damage_heavy ? r.chance(1, 2) : g.faults && r.chance(1, 4));   // a basis file from a foreign producer: other layouts, and (3 in 4) files that are well-formed line by line but describe no basis
 			Op b = g.mk(0, foreign ? "fbasis" : "wbasis"); g.seti(b, "o", r.below(4)); g.set(b, "path", strf("b%d", nfile++)); g.seti(b, "comp", r.chance(1, 4) ? r.below(3) : 0);
